@@ -343,8 +343,28 @@ fn gen_case(seed_prog: &crate::campaign::ProgramCase, tape: &[u16]) -> Case {
         let sub: Vec<u16> = (0..200).map(|j| tape.get(20 + i * 200 + j).copied().unwrap_or(0)).collect();
         // half of the versions are minimal in-rule edits (two arguments of one atom swapped): in a component
         // build the module text then often stays byte-identical and only one component changes
-        let v = if sub.first().copied().unwrap_or(0) & 1 == 1 { gen::gen_small_edit(&seed_prog.program, &sub[1..]) } else { gen::gen_variant(&seed_prog.program, &sub, &prof) };
-        versions.push(print::print(&v).text);
+        let text = match sub.first().copied().unwrap_or(0) % 8 {
+            1 | 3 | 5 => print::print(&gen::gen_small_edit(&seed_prog.program, &sub[1..])).text,
+            // edits that change no declaration and no rule: another layout (comments, blank lines), or
+            // the same text with trailing white space / a trailing comment / without its final newline.
+            // The generated code stays the same but the theory digest must follow the source.
+            7 => {
+                let mut q = seed_prog.program.clone();
+                q.layout = q.layout.wrapping_add(1 + sub.get(1).copied().unwrap_or(0) as u32);
+                print::print(&q).text
+            }
+            6 => {
+                let base = seed_prog.source.clone();
+                match sub.get(1).copied().unwrap_or(0) % 4 {
+                    0 => format!("{}\n", base),
+                    1 => format!("{}   \n", base.trim_end()),
+                    2 => format!("{}// trailing note", base),
+                    _ => base.trim_end().to_string(),
+                }
+            }
+            _ => print::print(&gen::gen_variant(&seed_prog.program, &sub, &prof)).text,
+        };
+        versions.push(text);
     }
     let component = t.chance(2, 3);
     let n = 3 + t.pick(6);
@@ -488,7 +508,7 @@ pub fn run_c12(tier: &str, seed: u64) -> campaign::CampaignResult {
             }
         }
     }
-    ev.rule = "cases = 2-4 versions of one generated theory (edits keep rule names but change bodies, add/remove rules and declarations; half of the versions are minimal in-rule edits - two arguments of one atom swapped - which leave the module text of a component build unchanged) and a history over Edit/Build/BuildKilled(k)/BuildKilledTorn(k: the k-th call, if a write, delivers half its bytes)/BuildRustcFails/BuildRustcFailsLate/BuildRustcDies (takes the build with it)/BuildRustcKilledAlone (signal KILL/SEGV/TERM/ABRT, the build survives) ending in two successful builds, module or component mode (fake rustc, RAYON_NUM_THREADS=1 so that k is reproducible); plus enumerated kill points k = 1.. for the history build(a), edit b, build killed before its k-th mutation, edit a, build, edit b, build; plus every component x every kind of compiler failure (exit 1 early, exit 1 after a partial write, death taking the build along, death by signal alone) on build(a), edit b, faulty build, [edit a, build, edit b,] build; non-trivial = history with a build that was really interrupted or whose rustc failed/died, followed by a compared successful build; distinct by hash of the case".into();
+    ev.rule = "cases = 2-4 versions of one generated theory (edits keep rule names but change bodies, add/remove rules and declarations; 3/8 of the versions are minimal in-rule edits - two arguments of one atom swapped - which leave the module text of a component build unchanged, 2/8 change only layout, comments or trailing white space) and a history over Edit/Build/BuildKilled(k)/BuildKilledTorn(k: the k-th call, if a write, delivers half its bytes)/BuildRustcFails/BuildRustcFailsLate/BuildRustcDies (takes the build with it)/BuildRustcKilledAlone (signal KILL/SEGV/TERM/ABRT, the build survives) ending in two successful builds, module or component mode (fake rustc, RAYON_NUM_THREADS=1 so that k is reproducible); plus enumerated kill points k = 1.. for the history build(a), edit b, build killed before its k-th mutation, edit a, build, edit b, build; plus every component x every kind of compiler failure (exit 1 early, exit 1 after a partial write, death taking the build along, death by signal alone) on build(a), edit b, faulty build, [edit a, build, edit b,] build; non-trivial = history with a build that was really interrupted or whose rustc failed/died, followed by a compared successful build; distinct by hash of the case".into();
     ev.assumptions = vec!["crashes are process death between two file-system calls of the compiler process (and inside rustc's output write); loss of page cache / power failure is not modelled".into()];
     ev.violations = violations as u64;
     ev.wall_s = start.elapsed().as_secs_f64();
